@@ -193,6 +193,10 @@ func (securityAssociation *SecurityAssociation) Unmarshal(b []byte) error {
 			transform.TransformType = transformData[4]
 			transform.TransformID = binary.BigEndian.Uint16(transformData[6:8])
 			if transformLength > 8 {
+				// bounds checking
+				if transformLength < 12 {
+					return errors.Errorf("Transform: No sufficient bytes to decode the attribute of transform")
+				}
 				transform.AttributePresent = true
 				transform.AttributeFormat = ((transformData[8] & 0x80) >> 7)
 				transform.AttributeType = binary.BigEndian.Uint16(transformData[8:10]) & 0x7f
